@@ -1083,11 +1083,12 @@ func (a *FnAnalysis) FullLoops() []string {
 				exits++
 			}
 		}
+		key := a.loopKey(ifi.Cond)
 		if exits == 0 {
-			set[a.D.CanonCond(ifi.Cond).Desc] = true
+			set[key] = true
 		} else {
 			// a loop that already has early exits: their number is recorded
-			set[fmt.Sprintf("%s ~exits=%d", a.D.CanonCond(ifi.Cond).Desc, exits)] = true
+			set[fmt.Sprintf("%s ~exits=%d", key, exits)] = true
 		}
 	}
 	// loops inside small unexported helpers count for their callers
@@ -1123,4 +1124,28 @@ func (a *FnAnalysis) FullLoops() []string {
 	}
 	sort.Strings(out)
 	return out
+}
+
+// loopKey names a loop by what bounds it — the operand of the header test that
+// is not the loop counter ("loop(len(P1))") — so that an index loop and the
+// equivalent range loop have the same key.
+func (a *FnAnalysis) loopKey(cond ssa.Value) string {
+	v := cond
+	for {
+		if u, ok := v.(*ssa.UnOp); ok && u.Op == token.NOT {
+			v = u.X
+			continue
+		}
+		break
+	}
+	if bo, ok := v.(*ssa.BinOp); ok {
+		xi, yi := a.isInduction(bo.X), a.isInduction(bo.Y)
+		switch {
+		case xi && !yi:
+			return "loop(" + a.D.Val(bo.Y) + ")"
+		case yi && !xi:
+			return "loop(" + a.D.Val(bo.X) + ")"
+		}
+	}
+	return "loop[" + a.D.CanonCond(cond).Desc + "]"
 }
